@@ -36,8 +36,8 @@ Section Sched.
   Definition q_inv (ops : list op) (q : qstate) : Prop :=
     q_sent q = firstn (length (q_sent q)) ops /\
     q_started q ++ q_pend q = q_sent q /\
-    (q_nvis q <= length (out (run fixed cfg (q_started q))))%nat /\
-    (q_busy q = false -> q_pend q = [] /\ q_nvis q = length (out (run fixed cfg (q_started q)))).
+    (q_nvis q <= length (out (ChatQueue.run fixed cfg (q_started q))))%nat /\
+    (q_busy q = false -> q_pend q = [] /\ q_nvis q = length (out (ChatQueue.run fixed cfg (q_started q)))).
 
   Lemma firstn_snoc_nth {X} (l : list X) n x : nth_error l n = Some x -> firstn (S n) l = firstn n l ++ [x].
   Proof.
@@ -46,46 +46,37 @@ Section Sched.
     - intros H. now rewrite <- (IH n H).
   Qed.
 
-  Lemma grow_len l x : (length (out (run fixed cfg l)) <= length (out (run fixed cfg (l ++ [x]))))%nat.
+  Lemma grow_len l x : (length (out (ChatQueue.run fixed cfg l)) <= length (out (ChatQueue.run fixed cfg (l ++ [x]))))%nat.
   Proof. destruct (run_out_grows fixed cfg l [x]) as [e ->]. rewrite app_length. lia. Qed.
 
   Lemma send_inv ops i x q : nth_error ops i = Some x -> q_inv ops q -> q_inv ops (q_send i x q).
   Proof.
     intros Hn (H1 & H2 & H3 & H4). unfold q_send.
-    destruct (Nat.eqb_spec (length (q_sent q)) i) as [Hi|Hi]; cbn [negb]; [|repeat split; auto; apply H4].
-    subst i. destruct (q_busy q) eqn:Hb; unfold q_inv; cbn [q_sent q_started q_pend q_busy q_nvis].
-    - repeat split.
-      + rewrite app_length. cbn [length]. rewrite Nat.add_1_r, (firstn_snoc_nth _ _ _ Hn). now rewrite <- H1.
-      + now rewrite app_assoc, H2.
-      + exact H3.
-      + discriminate.
-      + discriminate.
-    - destruct (H4 eq_refl) as [Hp Hv]. repeat split.
-      + rewrite app_length. cbn [length]. rewrite Nat.add_1_r, (firstn_snoc_nth _ _ _ Hn). now rewrite <- H1.
+    destruct (Nat.eqb_spec (length (q_sent q)) i) as [Hi|Hi]; cbn [negb]; [|split; [|split; [|split]]; assumption].
+    subst i.
+    assert (Hs : q_sent q ++ [x] = firstn (length (q_sent q ++ [x])) ops).
+    { rewrite app_length. cbn [length]. rewrite Nat.add_1_r, (firstn_snoc_nth _ _ _ Hn). now rewrite <- H1. }
+    destruct (q_busy q) eqn:Hb; unfold q_inv; cbn [q_sent q_started q_pend q_busy q_nvis].
+    - split; [exact Hs|]. split; [now rewrite app_assoc, H2|]. split; [exact H3|discriminate].
+    - destruct (H4 eq_refl) as [Hp Hv]. split; [exact Hs|]. split.
       + rewrite Hp in *. rewrite app_nil_r in *. now rewrite H2.
-      + pose proof (grow_len (q_started q) x). lia.
-      + discriminate.
-      + discriminate.
+      + split; [|discriminate]. pose proof (grow_len (q_started q) x). lia.
   Qed.
 
   Lemma tick_inv ops q : q_inv ops q -> q_inv ops (q_tick fixed cfg q).
   Proof.
-    intros (H1 & H2 & H3 & H4). unfold q_tick. destruct (q_busy q) eqn:Hb; [|repeat split; auto; apply H4; exact Hb].
+    intros (H1 & H2 & H3 & H4). unfold q_tick. destruct (q_busy q) eqn:Hb; [|(split; [|split; [|split]]; try assumption; intros _; apply H4; reflexivity)].
     destruct (q_pend q) as [|x r] eqn:Hp; unfold q_inv; cbn [q_sent q_started q_pend q_busy q_nvis].
-    - repeat split; auto.
-    - repeat split; auto.
-      + now rewrite <- app_assoc.
-      + apply grow_len.
-      + discriminate.
-      + discriminate.
+    - split; [exact H1|]. split; [exact H2|]. split; [lia|]. intros _. split; reflexivity.
+    - split; [exact H1|]. split; [now rewrite <- app_assoc|]. split; [apply grow_len|discriminate].
   Qed.
 
   Lemma init_inv ops : q_inv ops q_init.
-  Proof. repeat split; cbn; auto. Qed.
+  Proof. split; [reflexivity|]. split; [reflexivity|]. split; [cbn; lia|]. intros _. split; reflexivity. Qed.
 
   (* the invariant holds after every schedule of the two threads (Base.Conc.inv_all_schedules) *)
   Lemma q_inv_all_schedules ops nticks sched :
-    q_inv ops (final_state (run (q_threads ops nticks) sched q_init)).
+    q_inv ops (final_state (Conc.run (q_threads ops nticks) sched q_init)).
   Proof.
     unfold final_state. apply (inv_all_schedules (q_inv ops) (q_threads ops nticks)); [|apply init_inv].
     intros a Hin q Hq. unfold q_threads in Hin. cbn [concat] in Hin. rewrite app_nil_r in Hin.
@@ -139,6 +130,6 @@ Example sched_small :
     | [a; b; c] => match v with [] => true | [x] => true | [x; y] => true | [x; y; z] => true | _ => false end
     | _ => false
     end) = true /\
-  q_visible true cfg (final_state (run ts [0; 0; 0; 1; 1; 1] q_init)) = [PAck 25; PChat 1 22; PAck 1]%N /\
-  q_visible true cfg (final_state (run ts [0; 1; 1; 0; 0; 1] q_init)) = [PAck 25; PChat 1 22]%N.
+  q_visible true cfg (final_state (Conc.run ts [0; 0; 0; 1; 1; 1] q_init)) = [PAck 25; PChat 1 22; PAck 1]%N /\
+  q_visible true cfg (final_state (Conc.run ts [0; 1; 1; 0; 0; 1] q_init)) = [PAck 25; PChat 1 22]%N.
 Proof. vm_compute. repeat split; reflexivity. Qed.
